@@ -155,6 +155,15 @@ def run(run):
                     lines.append(rng.choice(UNUSUAL[:33]))
                 else:
                     lines.append(" ".join(mutate_tokens(rng, QG.random_query(rng, kinds=kinds, values=proj.values).lexemes)))
+            if s % 2 == 1 or rng.random() < 0.3:
+                # a line longer than any read buffer (4 KiB, 64 KiB): a valid query with a long condition, then more lines
+                k0 = rng.choice(kinds)
+                for size in ([5000] if s % 4 == 1 else [70000]):
+                    n = size // 30 + 1
+                    long_q = "FROM %s AS x WHERE %s SELECT x" % (k0, " && ".join('x.toString() != "pad%06d"' % i for i in range(n)))
+                    lines.insert(rng.randrange(len(lines) + 1), long_q)
+                    stats["console_long_lines"] += 1
+                lines.append(QG.plain(QG.random_query(rng, kinds=kinds, values=proj.values, depth=1)))
             lines = [l.replace("\n", " ") for l in lines]
             quit_at = rng.choice([None, len(lines)])
             payload = "".join(l + "\n" for l in lines) + (":quit\n" if quit_at is not None else "")
@@ -162,39 +171,18 @@ def run(run):
             for mode in ("piped", "incremental"):
                 args = ["query", "--project", proj.dir, "--stdin", "--output", "json", "--disable-metrics"]
                 env = dict(os.environ, HOME=os.path.join(C.BUILD, "home"))
-                p = subprocess.Popen([os.path.join(C.BUILD, "pathfinder")] + args, stdin=subprocess.PIPE, stdout=subprocess.PIPE, stderr=subprocess.STDOUT, env=env)
-                try:
-                    if mode == "piped":
-                        out, _ = p.communicate(payload.encode(), timeout=120)
-                    else:
-                        data = payload.encode()
-                        i = 0
-                        while i < len(data):
-                            n = rng.choice([1, 3, 7, 50, 500])
-                            try:
-                                p.stdin.write(data[i:i + n]); p.stdin.flush()
-                            except BrokenPipeError:
-                                break
-                            i += n
-                            if rng.random() < 0.2:
-                                time.sleep(0.01)
-                        try:
-                            p.stdin.close()
-                        except BrokenPipeError:
-                            pass
-                        out = p.stdout.read()
-                        p.wait(timeout=120)
-                except subprocess.TimeoutExpired:
-                    p.kill()
-                    run.violation("C10:console-hang", "console session hangs", dict(stdin=payload, mode=mode))
+                out, rc_console = C.run_console([os.path.join(C.BUILD, "pathfinder")] + args, payload.encode(), rng=rng,
+                                                chunks=(None if mode == "piped" else [1, 3, 7, 50, 500]), timeout=120, env=env)
+                if rc_console is None:
+                    run.violation("C10:console-hang", "console session hangs (no end within 120 s)", dict(stdin=payload[:20000], mode=mode))
                     continue
                 text = out.decode("utf-8", "replace")
                 answered = [m.group(1) for m in re.finditer(r"Executing query: (.*)", text)]
                 run.count(("console", mode, payload))
                 stats["console_sessions"] += 1
                 ended_ok = ("Okay, Bye!" in text) if quit_at is not None else ("error processing query" in text)
-                if p.returncode not in (0,) or "panic:" in text or "goroutine " in text:
-                    run.violation("C10:console-crash", "console session ended abnormally (rc=%s)" % p.returncode,
+                if rc_console not in (0,) or "panic:" in text or "goroutine " in text:
+                    run.violation("C10:console-crash", "console session ended abnormally (rc=%s)" % rc_console,
                                   dict(stdin=payload, mode=mode, tail=text[-800:], java=E.java_files(proj)))
                 elif [a.strip() for a in answered] != [l.strip() for l in expected] or not ended_ok:
                     run.violation("C10:console-unanswered", "console answered %d of %d submitted lines (%s stdin)" % (len(answered), len(expected), mode),
